@@ -253,7 +253,7 @@ def make_accepts(meta):
 
     def accepts(cls: str, code: str):
         lib, cat = cats[code]
-        r = documented(cls, cat, lib)
+        r = documented(cls.rstrip("!"), cat, lib)
         return True if r is None else r
 
     return accepts
